@@ -413,6 +413,16 @@ func (fr *Frame) external(callee *ssa.Function, x *ssa.Call, args []Val, st *Sta
 		} else {
 			c.assume("(forall ((" + q2 + " Int)) (! (=> (and (<= 0 " + q2 + ") (< " + q2 + " " + r.C[2] + ")) (not (and (<= 65 (select " + r.C[0] + " " + q2 + ")) (<= (select " + r.C[0] + " " + q2 + ") 90)))) :pattern ((select " + r.C[0] + " " + q2 + "))))")
 		}
+		// an ASCII first byte is mapped byte-wise whatever follows (runes are mapped in order)
+		first := sSel(s.C[0], s.C[1])
+		var m0 string
+		if upper {
+			m0 = "(ite (and (<= 97 " + first + ") (<= " + first + " 122)) (- " + first + " 32) " + first + ")"
+		} else {
+			m0 = "(ite (and (<= 65 " + first + ") (<= " + first + " 90)) (+ " + first + " 32) " + first + ")"
+		}
+		c.assume(sImp("(and (> "+s.C[2]+" 0) (< "+first+" 128))", "(and (> "+r.C[2]+" 0) (= (select "+r.C[0]+" 0) "+m0+"))"))
+		c.assume(sImp(sEq(s.C[2], "0"), sEq(r.C[2], "0")))
 		// the result is a function of the argument's content
 		c.recordCase(full, s, r)
 		return r
